@@ -86,6 +86,57 @@ RESULTS2 = {
  "C19-r2-3": ("C19", ""),
  "C20-r2-1": ("C20", ""), "C20-r2-2": ("C20", ""), "C20-r2-3": ("C20", ""),
 }
+# round 3: fresh sub-agents again, told the titles of both earlier rounds
+RESULTS3 = {
+ "C01-r3-1": ("C01", "after a yield point before every statement of pkg/conn and internal/bytecounter, simulation-aware locks and keep-alives during play were added (a response lands between the two writes of a frame)"),
+ "C01-r3-2": ("C01", "after readers that set up only part of the medias were added"),
+ "C01-r3-3": ("", "MISSED: needs a reader that sends PLAY again while it is playing and a handler that refuses it; the library's client cannot (PLAY is only sent from the pre-play state) and no check has a raw TCP reader whose media is followed after a refused request"),
+ "C02-r3-1": ("C02", ""),
+ "C02-r3-2": ("C02", "after SETUP requests without a unicast / multicast token were added; server panic"),
+ "C02-r3-3": ("C01", "same slip as C01-r3-1 (frame header and payload in two writes); caught by C01, C02's raw peers do not keep media flowing while they send requests"),
+ "C02-r3-4": ("C02", ""),
+ "C04-r3-1": ("C04", "after long end-to-end conversations (more than the 30000 bytes the tunnel's POST request announces) were added"),
+ "C04-r3-2": ("C04", ""),
+ "C04-r3-3": ("C04", "after 'the query of a URL without user-info survives base.ParseURL verbatim' and URLs with no path and a query containing '@', an escape and a '/' were added"),
+ "C04-r3-4": ("C04", "panic"),
+ "C07-r3-1": ("C07", ""), "C07-r3-2": ("C07", ""), "C07-r3-3": ("C07", ""),
+ "C10-r3-1": ("C10", ""),
+ "C10-r3-2": ("C10", "after user names with a backslash were added"),
+ "C10-r3-3": ("C10", "after authentication failures reported wrapped (%w) were added"),
+ "C10-r3-4": ("", "MISSED: needs a camera-like scripted server (session-level control attribute naming another host, DESCRIBE open, SETUP protected) in front of the library's client; C10's servers are the library's own"),
+ "C11-r3-1": ("C01", "C01 (holds inside the WebSocket writer's underlying writes, keep-alives during play): gorilla's concurrent-write panic; C11's hostile peers do not play through the WebSocket tunnel"),
+ "C11-r3-2": ("C13", "C13 (UDP publisher closed while its packets arrive, holds in the UDP listener): server crash"),
+ "C11-r3-3": ("C11", "after the tunnel race scenario was run in 10% of the runs with resets of the POST half"),
+ "C11-r3-4": ("C11", "after a short write queue in runs with a peer that stopped reading was added"),
+ "C12-r3-1": ("C12", "after hostile media (RTP header fields pointing beyond the packet) was added; client panic"),
+ "C12-r3-2": ("C12", "hang"),
+ "C12-r3-3": ("C12", "after TLS underneath the scripted server and resets of the GET half only were added"),
+ "C12-r3-4": ("C12", "after media on every set-up channel, back channels included, was added; client panic"),
+ "C13-r3-1": ("C12", "C12 after busy odd (RTCP) ports were added; C13 has no busy ports"),
+ "C13-r3-2": ("", "MISSED: needs two UDP-multicast readers of one stream; the simulation has one address with a real interface (loopback) and so one multicast reader per run"),
+ "C13-r3-3": ("C12", "C12 (tunnelled publisher whose server stops reading): same slip as C12-r2-1 on the other half"),
+ "C13-r3-4": ("C16", "C16 after the slow-site schedules were added (a caller held between the closed check and Wait while Close runs to its end)"),
+ "C14-r3-1": ("C14", ""), "C14-r3-2": ("C14", ""), "C14-r3-3": ("C14", ""),
+ "C14-r3-4": ("C14", "after 'the delivered payload is the one sent under that sequence number' was added to the whole-system mode"),
+ "C15-r3-1": ("C15", ""),
+ "C15-r3-2": ("C15", "after the whole-system mode (several formats in one media, Client.PacketNTP) was added"),
+ "C15-r3-3": ("C15", ""),
+ "C16-r3-1": ("C16", "after seeded subsets of the yield sites were added (Start directly followed by Close)"),
+ "C16-r3-2": ("C16", ""),
+ "C16-r3-3": ("C16", "after RTCP bursts towards a UDP-multicast reader were added to the capacity workload"),
+ "C16-r3-4": ("C16", "after simulation-aware locks with yield points inside ringbuffer.go were added"),
+ "C17-r3-1": ("C17", ""),
+ "C17-r3-2": ("C17", "after redirect Locations with other spellings of the scheme were added"),
+ "C17-r3-3": ("C17", "after the secure SETUP without KeyMgmt on a TLS server was added"),
+ "C18-r3-1": ("C18", ""), "C18-r3-2": ("C18", ""),
+ "C18-r3-3": ("C18", "after a UDP-multicast reader was added"),
+ "C18-r3-4": ("C18", ""),
+ "C19-r3-1": ("C19", "after 'the refused connection does not stay attached to the session' was added"),
+ "C19-r3-2": ("", "MISSED: needs a UDP-multicast client and a SETUP answer with a source= other than the server's address; C19 has no multicast and drives the library's server, which never sends one"),
+ "C19-r3-3": ("", "MISSED: needs a UDP-multicast reader and RTCP sent to the group from its address and another port; C19 has no multicast"),
+ "C20-r3-1": ("C20", ""), "C20-r3-2": ("C20", ""),
+ "C20-r3-3": ("C20", "after user-info with an empty user name and a password was added"),
+}
 confirmed = {}
 for line in open("/tmp/confirm-summary.log") if os.path.exists("/tmp/confirm-summary.log") else []:
     m = re.match(r"(C\d+)/(\d+) apply=(\S+) build=(\S+) tests=(\S+) demo_with=(\S+) demo_without=(\S+)", line)
@@ -105,11 +156,21 @@ if os.path.exists("/tmp/confirm2-summary.log"):
         if m:
             confirmed[f"{m.group(1)}-r2-{m.group(2)}"] = dict(applies=m.group(3), builds=m.group(4), unedited_tests=m.group(5),
                                                                demo_with_patch=m.group(6), demo_without_patch=m.group(7))
+if os.path.exists("/tmp/confirm3-summary.log"):
+    for line in open("/tmp/confirm3-summary.log"):
+        m = re.match(r"(C\d+)/r3-(\d+) apply=(\S+) build=(\S+) tests=(\S+) demo_with=(\S+) demo_without=(\S+)", line)
+        if m:
+            confirmed[f"{m.group(1)}-r3-{m.group(2)}"] = dict(applies=m.group(3), builds=m.group(4), unedited_tests=m.group(5),
+                                                               demo_with_patch=m.group(6), demo_without_patch=m.group(7))
 ALL = dict(RESULTS)
 ALL.update(RESULTS2)
+ALL.update(RESULTS3)
 rows = []
 for sid in sorted(ALL):
-    if "-r2-" in sid:
+    if "-r3-" in sid:
+        pid, k = sid.split("-r3-")
+        src = f"/tmp/seedout3/{pid}/{k}"
+    elif "-r2-" in sid:
         pid, k = sid.split("-r2-")
         src = f"/tmp/seedout2/{pid}/{k}"
     else:
